@@ -267,7 +267,7 @@ class GrammarGen:
 
     def make_leftrec(self):
         rnd = self.rnd
-        shape = rnd.choice(["plain", "two_ops", "base_first", "indirect", "pos", "opt_suffix", "clo_suffix", "indirect_clo", "empty_base"])
+        shape = rnd.choice(["plain", "two_ops", "base_first", "indirect", "pos", "opt_suffix", "clo_suffix", "indirect_clo", "empty_base", "nested"])
         dirs = ["@leftrec"]
         if shape == "pos":
             dirs.append("@position")
@@ -275,6 +275,12 @@ class GrammarGen:
         if shape in ("plain", "pos"):
             body = ("choice", [("seq", [f("left", True, "LR"), ("lit", "+", False), f("n", False, "Num")]),
                                ("seq", [f("n", False, "Num")])])
+        elif shape == "nested":       # two @leftrec rules, the inner one reached at the outer one's own offset
+            body = ("choice", [("seq", [f("left", True, "LR"), ("lit", "+", False), f("t", False, "LRt")]),
+                               ("seq", [f("t", False, "LRt")])])
+            self.rules_leaf.append(Rule("LRt", dirs=["@leftrec"], body=("choice", [
+                ("seq", [f("left", True, "LRt"), ("lit", "-", False), f("n", False, "Num")]),
+                ("seq", [f("n", False, "Num")])])))
         elif shape == "two_ops":
             body = ("choice", [("seq", [f("left", True, "LR"), ("lit", "+", False), f("n", False, "Num")]),
                                ("seq", [f("left", True, "LR"), ("lit", "-", False), f("n", False, "Num")]),
@@ -420,7 +426,24 @@ class GrammarGen:
     def gen_choice(self, depth, i, fields_ok, fields, solid_first=False):
         rnd = self.rnd
         n = rnd.choice([1, 1, 1, 2, 2, 3])
-        return ("choice", [self.gen_seq(depth, i, fields_ok, fields, solid_first) for _ in range(n)])
+        alts = [self.gen_seq(depth, i, fields_ok, fields, solid_first) for _ in range(n)]
+        if n >= 2:
+            r = rnd.random()
+            if r < 0.12 and not solid_first:
+                # a non-last alternative made of lookaheads only (it consumes nothing: never in a closure body)
+                k = rnd.randrange(n - 1)
+                la = [(rnd.choice(["neg", "neg", "pos"]), self.lookahead_body())]
+                if rnd.random() < 0.3:
+                    la.append(("neg", self.lookahead_body()))
+                alts[k] = ("seq", la)
+            elif r < 0.30:
+                # alternatives with a common first element (`callee:Ident '(' | kw:Ident ';'`): the second attempt at
+                # the same offset is what memoization answers from the cache
+                k = rnd.randrange(n - 1)
+                first = alts[k][1][0]
+                if first[0] in ("field", "lit", "range"):
+                    alts[k + 1] = ("seq", [first] + list(alts[k + 1][1]))
+        return ("choice", alts)
 
     # -- rules ---------------------------------------------------------------
     def generate(self):
